@@ -830,6 +830,172 @@ theorem run_Inv (cfg : Cfg) (s : State) (es : List Event) (h : Inv cfg s) : Inv 
   | nil => exact h
   | cons e es ih => exact ih _ (stepEvent_Inv cfg s e h)
 
+/-! ## the durable key map equals the enforced one (fault model: a failed PUT did not land) -/
+
+/-- the engine's copy and the durable key map equal the enforced one, and no "landing" fault is armed -/
+def Sync (s : State) : Prop :=
+  s.extBound = s.bound ∧ s.durableBound = s.bound ∧ s.faultLands = false
+
+theorem init_Sync (cfg : Cfg) : Sync (init cfg) := ⟨rfl, rfl, rfl⟩
+
+theorem Sync_of_eq (s s' : State) (h : Sync s) (hb : s'.bound = s.bound) (he : s'.extBound = s.extBound)
+    (hd : s'.durableBound = s.durableBound) (hf : s'.faultLands = s.faultLands) : Sync s' := by
+  unfold Sync at h ⊢
+  rw [hb, he, hd, hf]
+  exact h
+
+theorem persistRegistry_Sync (s : State) (h : Sync s) : Sync (persistRegistry s).1 := by
+  obtain ⟨h1, h2, h3, _, _, h6⟩ := persistRegistry_fields s
+  unfold Sync at h ⊢
+  rw [h1, h2, h6]
+  refine ⟨h.1, ?_, h.2.2⟩
+  rcases h3 with e | e <;> rw [e]
+  · exact h.2.1
+  · exact h.1
+
+theorem storeApiKey_Sync (s : State) (n : String) (v : Option String) (h : Sync s) :
+    Sync (storeApiKey s n v).1 := by
+  obtain ⟨h1, h2, _, _, _, h6⟩ := storeApiKey_fields s n v
+  unfold Sync at h ⊢
+  rw [h6]
+  cases hr : (storeApiKey s n v).2 with
+  | true =>
+    obtain ⟨a, b, c⟩ := h1 hr
+    rw [a, b, c]
+    exact ⟨rfl, rfl, h.2.2⟩
+  | false =>
+    obtain ⟨a, b, c⟩ := h2 hr
+    rw [a, b, c h.2.2]
+    exact ⟨rfl, h.2.1, h.2.2⟩
+
+theorem registerDb_Sync (cfg : Cfg) (s : State) (mode : OpenMode) (n : String) (k : Option String)
+    (h : Sync s) : Sync (registerDb cfg s mode n k).1 := by
+  have h0 : Sync { s with stored := addName s.stored n } := Sync_of_eq s _ h rfl rfl rfl rfl
+  cases k with
+  | none =>
+    unfold registerDb
+    dsimp only
+    repeat' split
+    all_goals first
+      | exact h
+      | exact persistRegistry_Sync _ (Sync_of_eq s _ h rfl rfl rfl rfl)
+      | exact Sync_of_eq _ _ (persistRegistry_Sync _ (Sync_of_eq s _ h rfl rfl rfl rfl)) rfl rfl rfl rfl
+  | some key =>
+    unfold registerDb
+    dsimp only
+    have hb : Sync (storeApiKey { s with stored := addName s.stored n } n (some key)).1 :=
+      storeApiKey_Sync _ n _ h0
+    have hp := persistRegistry_Sync _ (Sync_of_eq _
+      { (storeApiKey { s with stored := addName s.stored n } n (some key)).1 with
+        opened := addName (storeApiKey { s with stored := addName s.stored n } n (some key)).1.opened n,
+        registry := addName (storeApiKey { s with stored := addName s.stored n } n (some key)).1.registry n }
+      hb rfl rfl rfl rfl)
+    repeat' split
+    all_goals first
+      | exact h
+      | exact hb
+      | exact hp
+      | exact storeApiKey_Sync _ n none (Sync_of_eq _ _ hp rfl rfl rfl rfl)
+
+theorem closeDb_Sync (cfg : Cfg) (s : State) (n : String) (h : Sync s) : Sync (closeDb cfg s n).1 := by
+  have hp := persistRegistry_Sync { s with opened := delName s.opened n, registry := delName s.registry n }
+    (Sync_of_eq s _ h rfl rfl rfl rfl)
+  unfold closeDb
+  dsimp only
+  repeat' split
+  all_goals first | exact h | exact hp | exact Sync_of_eq _ _ hp rfl rfl rfl rfl
+
+theorem setDbApiKey_Sync (cfg : Cfg) (s : State) (n : String) (k : Option String) (f : String)
+    (h : Sync s) : Sync (setDbApiKey cfg s n k f).1 := by
+  have hs := storeApiKey_Sync s n (some (k.getD f)) h
+  unfold setDbApiKey
+  dsimp only
+  repeat' split
+  all_goals first | exact h | exact hs
+
+theorem removeDbApiKey_Sync (s : State) (n : String) (h : Sync s) : Sync (removeDbApiKey s n).1 := by
+  have hs := storeApiKey_Sync s n none h
+  unfold removeDbApiKey
+  dsimp only
+  repeat' split
+  all_goals first | exact h | exact hs
+
+theorem rootHandler_Sync (cfg : Cfg) (s : State) (handler : String) (p : RootParams) (f : String)
+    (h : Sync s) : Sync (rootHandler cfg s handler p f).1 := by
+  unfold rootHandler
+  split
+  · exact h
+  · split
+    · exact h
+    · cases hn : p.name with
+      | none => simp only; repeat' split
+                all_goals exact h
+      | some n =>
+        simp only
+        repeat' split
+        · exact registerDb_Sync _ _ _ _ _ h
+        · exact registerDb_Sync _ _ _ _ _ h
+        · exact registerDb_Sync _ _ _ _ _ h
+        · exact closeDb_Sync _ _ _ h
+        · exact setDbApiKey_Sync _ _ _ _ _ h
+        · exact removeDbApiKey_Sync _ _ h
+        · exact h
+
+theorem rpc_Sync (cfg : Cfg) (s : State) (scope : Scope) (r : Request) (h : Sync s) :
+    Sync (rpc cfg s scope r).1 := by
+  cases ha : authorizeState cfg s scope (bearerToken r.auth) with
+  | error e => rw [rpc_rejected cfg s _ r e ha]; exact h
+  | ok p =>
+    cases scope with
+    | database n =>
+      rcases rpc_database_state cfg s n r with e | ⟨_, b, e⟩ <;> rw [e]
+      · exact h
+      · exact Sync_of_eq s _ h rfl rfl rfl rfl
+    | root =>
+      unfold rpc
+      simp only [ha]
+      split
+      · exact h
+      · split
+        · exact h
+        · split
+          · exact h
+          · split
+            · exact h
+            · rename_i row _
+              have := rootHandler_Sync cfg s row.handler ‹RootParams› r.fresh h
+              split
+              · rename_i heq; rw [heq] at this; exact this
+              · rename_i heq; rw [heq] at this; exact this
+
+theorem handle_Sync (cfg : Cfg) (s : State) (r : Request) (h : Sync s) : Sync (handle cfg s r).1 := by
+  unfold handle
+  split
+  · exact h
+  · exact h
+  · exact rpc_Sync _ _ _ _ h
+  · exact rpc_Sync _ _ _ _ h
+  · exact h
+  · exact h
+
+/-- histories in which every armed fault is of the kind "the failed PUT did not land" -/
+def NoLandingFault : List Event → Prop
+  | [] => True
+  | .faultLanding _ :: _ => False
+  | _ :: es => NoLandingFault es
+
+theorem run_Sync (cfg : Cfg) (s : State) (es : List Event) (h : Sync s) (hes : NoLandingFault es) :
+    Sync (run cfg s es) := by
+  induction es generalizing s with
+  | nil => exact h
+  | cons e es ih =>
+    cases e with
+    | request r => exact ih _ (handle_Sync cfg s r h) hes
+    | restart => exact ih _ ⟨rfl, rfl, rfl⟩ hes
+    | crash => exact ih _ ⟨rfl, rfl, rfl⟩ hes
+    | fault k => exact ih _ (Sync_of_eq s _ h rfl rfl rfl (by show false = s.faultLands; rw [h.2.2])) hes
+    | faultLanding k => exact absurd hes (by simp [NoLandingFault])
+
 /-! ## acknowledged ⇒ durable -/
 
 theorem persistKeys_no_fault (s : State) (hro : s.primaryRO = false) (hf : s.faultIn = none) :
